@@ -226,7 +226,7 @@ class ManageSieveConnection:
     @classmethod
     def _decode_sasl(cls, data: bytes) -> bytes:
         try:
-            return b64decode(data)
+            return b64decode(data, validate=True)
         except binascii.Error as exc:
             raise InvalidResponse() from exc
 
